@@ -23,9 +23,14 @@ package main
 // as a call evaluates them — unless the argument is the never-assigned variable of the same name, which is
 // then used directly. A helper with one trailing return is expanded in line; one with several returns is
 // expanded inside a labelled one-armed switch, each "return e" becoming "result = e; break label".
-// Helpers with defer, recover, labels, named results or variadic parameters, helpers used as values, recursive
-// helpers and helpers in another file than a caller are left alone: the rules then see the program as it is
-// (and may report what they cannot place). An exported new helper is expanded at its call sites too, but its
+// A never-assigned parameter whose argument is an identifier or a constant is replaced by it. A function-typed
+// parameter that the body only calls (or compares with nil) and that is bound to a function literal (at the call
+// or through a once-assigned local of the caller), to a method value over plain identifiers or to nil is reduced:
+// its calls expand to the literal (as statements, or as the returned expression under || and &&), nil tests fold.
+// A helper used as a value becomes the literal it stands for; a helper in another file is expanded when the
+// imports its body needs can be added. Helpers with defer, recover, labels, named results or variadic parameters
+// and recursive helpers are left alone: the rules then see the program as it is (and may report what they cannot
+// place). An exported new helper is expanded at its call sites too, but its
 // declaration stays: it is new API surface and is judged as such. A bug inside an extracted helper is inlined
 // along with it and is judged where it now sits. The normalised program is only analysed, never run.
 
